@@ -671,6 +671,13 @@ func (x *run[N]) step(op Op, val int, tail bool) error {
 			d.at = absentVal
 			wantErr = "an absent value"
 			x.label("Replace of an absent value")
+			if len(x.hist)%2 == 0 {
+				// every other time the new value equals the absent old one: Replace(v, v) of a value that is not in
+				// the sequence reports absence all the same
+				val = absentVal
+				d.val = absentVal
+				x.label("Replace(v, v) of an absent value")
+			}
 		} else {
 			d.at = x.model[p]
 			x.model[p] = val
